@@ -15,13 +15,29 @@ theorem translator_complete : Gen.missing = [] := by decide
 
 theorem skeleton_unchanged :
     (Gen.Skel.conds_Mux_serveHTTP,
+     Gen.Skel.stmts_Mux_serveHTTP,
      Gen.Skel.conds_params_set,
+     Gen.Skel.stmts_params_set,
      Gen.Skel.conds_streamHTTP_RecvMsg,
-     Gen.Skel.conds_Mux_match)
+     Gen.Skel.stmts_streamHTTP_RecvMsg,
+     Gen.Skel.conds_Mux_match,
+     Gen.Skel.stmts_Mux_match,
+     Gen.Skel.conds_method_parseQueryParams,
+     Gen.Skel.stmts_method_parseQueryParams,
+     Gen.Skel.conds_streamWS_RecvMsg,
+     Gen.Skel.stmts_streamWS_RecvMsg)
   = (Expected.C07.conds_Mux_serveHTTP,
+     Expected.C07.stmts_Mux_serveHTTP,
      Expected.C07.conds_params_set,
+     Expected.C07.stmts_params_set,
      Expected.C07.conds_streamHTTP_RecvMsg,
-     Expected.C07.conds_Mux_match) := rfl
+     Expected.C07.stmts_streamHTTP_RecvMsg,
+     Expected.C07.conds_Mux_match,
+     Expected.C07.stmts_Mux_match,
+     Expected.C07.conds_method_parseQueryParams,
+     Expected.C07.stmts_method_parseQueryParams,
+     Expected.C07.conds_streamWS_RecvMsg,
+     Expected.C07.stmts_streamWS_RecvMsg) := rfl
 
 /-- **the path capture wins**: for every body content, every list of query parameters (any
 number of them naming the same field, anywhere) and every list of path captures, a singular
